@@ -189,9 +189,14 @@ class MapInterp(Interp):
                 return NativeObj("NotImplemented")
             return Native(name, eq)
         if name == "__ne__":
+            # the builtin's own comparison - it does NOT go through an overridden __eq__
             def ne(i, a, k):
-                r = self.call(self._obj_attr(o, "__eq__"), [a[0]], {})
-                return r if isinstance(r, NativeObj) else not self.truth(r)
+                other = a[0]
+                if isinstance(other, Obj) and other.items is not None:
+                    return list(it.items()) != list(other.items.items())
+                if isinstance(other, dict):
+                    return dict(it) != other
+                return NativeObj("NotImplemented")
             return Native(name, ne)
         raise AbsRaise("AttributeError", f"{o.cls.name} has no attribute {name}")
 
@@ -333,6 +338,10 @@ class Ref:
                 for k, v in op[1].items():
                     d[up(k)] = v
                 return ("ok", None)
+            if kind == "update_map_kw":
+                for k, v in list(op[1].items()) + list(op[2].items()):
+                    d[up(k)] = v
+                return ("ok", None)
             if kind == "copy":
                 return ("ok", ("map", list(d.items())))
             if kind == "or":
@@ -377,9 +386,12 @@ def op_alphabet():
     ops += [("has_key", "a"), ("has_key", "B"),
             ("update_map", {"a": 3, "c": 4}), ("update_map", {"B": 5, "b": 6}),
             ("update_pairs", [("c", 1), ("C", 2), ("a", 3)]), ("update_kw", {"a": 3, "d": 4}),
+            ("update_pairs", [("b", 1), ("B", 2), ("b", 3)]), ("update_map_kw", {"c": 1, "C": 2}, {"c": 3}),
+            ("update_pairs", [(b"a", 5), ("a", 6), (b"a", 7)]),
             ("copy",), ("or", {"a": 9, "z": 1}), ("ior", {"b": 9, "y": 1}), ("ror", {"a": 9, "Z": 1}),
             ("len",), ("keys",),
             ("eq", {"A": 1}), ("eq", {"a": 1}), ("eq", {"a": 1, "b": 2}), ("eq", {"B": 2, "A": 1}),
+            ("eq", {"a": 1, "A": 1}), ("eq", {"b": 2, "a": 7, "A": 1}),
             ("ne", {"a": 1}), ("eq", {}), ("eq_other", 5), ("eq_other", None), ("eq_other", "A"),
             ("eq_other", [("A", 1)])]
     return ops
@@ -417,6 +429,9 @@ def run_op(it, o, op):
             return ("ok", None)
         if kind == "update_kw":
             call("update", **op[1])
+            return ("ok", None)
+        if kind == "update_map_kw":
+            call("update", dict(op[1]), **op[2])
             return ("ok", None)
         if kind == "copy":
             n = call("copy")
